@@ -24,15 +24,20 @@ OUT=/tmp/seedeval_check_$$.txt
 RC=0; ./check "$PROP" --tier quick --no-evidence > "$OUT" 2>&1 || RC=$?
 git -C /repo checkout -- .
 NV=$(grep -c "^VIOLATION property=" "$OUT" || true)
+NSOLVER=$(grep -E "^VIOLATION +[0-9.]+s " "$OUT" | grep -vc "sanity:" || true)
+NSANITY=$(grep -E "^VIOLATION +[0-9.]+s " "$OUT" | grep -c "sanity:" || true)
+SOLVERFIRST=$(grep -E "^VIOLATION +[0-9.]+s " "$OUT" | grep -v "sanity:" | head -1 | awk '{print $NF}' | cut -c1-120)
 FIRST=$(grep -m1 -A1 "^VIOLATION property=" "$OUT" | tail -1 | cut -c1-200)
-echo "seed $NAME: check exit=$RC violations=$NV first: $FIRST"
-python3 - "$PROP" "$NAME" "$RC" "$NV" "$FIRST" "$NEEDS" <<'PY'
+echo "seed $NAME: check exit=$RC violations=$NV (solver-found obligations: $NSOLVER, concrete sanity inputs: $NSANITY) first: $FIRST"
+python3 - "$PROP" "$NAME" "$RC" "$NV" "$FIRST" "$NEEDS" "$NSOLVER" "$NSANITY" "$SOLVERFIRST" <<'PY'
 import json, sys, subprocess
-prop, name, rc, nv, first, needs = sys.argv[1:7]
+prop, name, rc, nv, first, needs, nsolver, nsanity, solverfirst = sys.argv[1:10]
 meta = {'property': prop, 'name': name, 'needs_to_manifest': needs,
         'confirmed': {'applies': True, 'suite_stable_pass_intact': True, 'demo_fails_with_patch': True, 'demo_passes_without': True,
                       'how': 'tools/seedeval.sh: scratch worktree of /repo HEAD, tools/baseline_check.py, demo run with and without the patch'},
-        'check_quick': {'exit': int(rc), 'violation_lines': int(nv), 'first': first, 'detected': int(rc) == 1 and int(nv) > 0},
+        'check_quick': {'exit': int(rc), 'violation_lines': int(nv), 'first': first, 'detected': int(rc) == 1 and int(nv) > 0,
+                        'obligations_with_solver_counterexample': int(nsolver or 0), 'first_such_obligation': solverfirst,
+                        'concrete_sanity_inputs_failing': int(nsanity or 0)},
         'repo_head': subprocess.check_output(['git', '-C', '/repo', 'rev-parse', '--short', 'HEAD'], text=True).strip()}
 json.dump(meta, open('/verif/seeded/%s/meta.json' % name, 'w'), indent=1)
 PY
